@@ -51,3 +51,12 @@ Theorem C07_orphans_ignored : forall f e rest pend acc, sentry_ok e ->
   scan_slots (S f) (ser_short e ++ rest) pend acc = scan_slots f rest [] (acc ++ [set_lfn e None]) /\ shown_name (set_lfn e None) = NShort (sfn_display (d_name e)).
 Proof. exact scan_orphans_ignored. Qed.
 Print Assumptions C07_orphans_ignored.
+
+(** volume labels: an entry with the VOLUME_ID bit — whatever other attribute bits it carries, e.g. VOLUME_ID|ARCHIVE as other systems
+    write it — is never listed and never found (C07-m5 recognised labels by masked equality) *)
+Theorem C07_labels_ignored : forall es e, is_volid e = true ->
+  ~ In e (ge_dirs es ++ ge_files es) /\ forall n, search_entry es n <> Some e.
+Proof. exact labels_ignored. Qed.
+Print Assumptions C07_labels_ignored.
+Example C07_label_with_archive_bit : is_volid (mkDirent (repeat 65 11) 40 0 0 0 0 0 0 0 0 0 0 None) = true.
+Proof. reflexivity. Qed.
